@@ -17,6 +17,10 @@
 (***************************************************************************)
 EXTENDS Integers, TLC
 
+\* StarHost = TRUE: the star itself is the tidal host (star / planet): the planet's own orbit ("moon" here) IS its stellar orbit, so
+\* set_stellar_distance updates that triple; there is no separate stellar orbit and no non-stellar host whose mass could change
+CONSTANT StarHost
+
 VARIABLES moon, stellar,         \* each: [a |-> id, n |-> id, P |-> id, m |-> mass ids], id = the update (value id) it was derived from
           mm, hm                 \* current mass ids of the moon and of the (non-stellar) tidal host
 vars == <<moon, stellar, mm, hm>>
@@ -29,12 +33,13 @@ Init == mm = 0 /\ hm = 0 /\ moon = T(0, <<0, 0>>) /\ stellar = T(0, <<0>>)
 \* orbit.set_state(moon, <kind>=v) | orbit.set_<kind>(moon, v) | moon.<kind> = v | moon.set_state(<kind>=v)
 MoonSet(kind, v, path) == moon' = T(v, <<mm, hm>>) /\ UNCHANGED <<stellar, mm, hm>>
 \* orbit.set_state(host, <kind>=v, set_stellar_orbit=True) | orbit.set_<kind>(host, v, set_stellar_orbit=True)
-StellarSet(kind, v, path) == stellar' = T(v, <<hm>>) /\ UNCHANGED <<moon, mm, hm>>
+StellarSet(kind, v, path) == ~StarHost /\ stellar' = T(v, <<hm>>) /\ UNCHANGED <<moon, mm, hm>>
 \* orbit.set_stellar_distance(host | moon, v): "a world shares its stellar distance with its tidal host"
-StellarDistance(v, via) == stellar' = T(v, <<hm>>) /\ UNCHANGED <<moon, mm, hm>>
+StellarDistance(v, via) == IF StarHost THEN moon' = T(v, <<mm, hm>>) /\ UNCHANGED <<stellar, mm, hm>>
+                                       ELSE stellar' = T(v, <<hm>>) /\ UNCHANGED <<moon, mm, hm>>
 \* moon.set_geometry(radius, mass id v) / host.set_geometry(radius, mass id v): as found, nothing in the orbit is re-derived
 MoonMass(v) == v # mm /\ mm' = v /\ UNCHANGED <<moon, stellar, hm>>
-HostMass(v) == v # hm /\ hm' = v /\ UNCHANGED <<moon, stellar, mm>>
+HostMass(v) == ~StarHost /\ v # hm /\ hm' = v /\ UNCHANGED <<moon, stellar, mm>>
 
 Next == \/ \E kind \in {"a", "n", "P"}, v \in Vals, path \in {"orbit_set_state", "orbit_setter", "world_prop", "world_set_state"} : MoonSet(kind, v, path)
         \/ \E kind \in {"a", "n", "P"}, v \in Vals, path \in {"orbit_set_state", "orbit_setter"} : StellarSet(kind, v, path)
